@@ -40,7 +40,7 @@ CHECKS["C03"] = (
     "ENUM",
     "model_checking",
     "bounded exhaustive enumeration of closed trees x formulas x entry points against an executable reference of the specification's satisfaction relation",
-    "All closed trees (depth/node bound) of seven small grammars x all formulas of a typed universe (two nested tree quantifiers, match "
+    "All closed trees (depth/node bound) of nine small grammars (incl. a 32-child row and 30 structured cells) x all formulas of a typed universe (two nested tree quantifiers, match "
     "expressions with bindings and optionals, numeric quantifiers with count, every structural predicate, =/str.len/str.to.int atoms, "
     "negation, and/or) are evaluated through evaluate(AST), evaluate(text), a numeric-quantifier wrapping (quantifier-elimination path) "
     "and ISLaSolver.check, and compared with mc/ref/sem.py, a direct transcription of the 'Semantics' section of islaspec.rst with Z3 as "
@@ -84,7 +84,8 @@ CHECKS["C06"] = (
     "For four grammars, every distinct open prefix of every closed tree of the universe (one or two - thorough: three - inner nodes opened, "
     "and 'everything below depth d' opened) is evaluated with every formula of a schema-stratified set. Whenever evaluate() answers TRUE or "
     "FALSE, every completion obtained by substituting every closed subtree of a bounded pool for each open leaf is judged by the reference "
-    "semantics; a single disagreeing completion is a violation. UNKNOWN is always accepted; a run in which fewer than 5% of verdicts are definite fails as vacuous.",
+    "semantics; a single disagreeing completion is a violation. The formula set includes, per nonterminal, ten atoms over SMT operators the "
+    "evaluator hands to Z3 (prefixof, suffixof, contains, indexof, str.<=, replace, at, substr). UNKNOWN is always accepted; a run in which fewer than 5% of verdicts are definite fails as vacuous.",
     "Completions come from bounded pools (stated in the evidence), so 'all completions' means all within the pools; reference semantics as for C03.",
     "DESIGN.md section 3, C06",
 )
@@ -98,7 +99,9 @@ CHECKS["C09"] = (
     "quantifiers over raw n-ary bodies. Every composite goes through ten rewrites (identity, negation, NNF, NNF of the negation, DNF after "
     "NNF deep/shallow, DNF directly, bound-variable renaming, & and | with another formula) and is evaluated on every closed tree. The "
     "expected verdict is computed by the reference semantics from the composite's own structure, so a rewrite that is consistently wrong "
-    "on both sides is still caught. Any exception in a rewrite is a violation.",
+    "on both sides is still caught. Any exception in a rewrite is a violation. Two further families: quantifier bodies built through the "
+    "combinators &, |, - from {p, not p, s, not s} in every (l1 op l2) op l3 arrangement, and operands whose bound names collide ({v, v_0, v_1}, "
+    "incl. match-expression variables), raw and nested, under every rewrite.",
     "Reference semantics as for C03; base formulas use one type per variable name.",
     "DESIGN.md section 3, C09",
 )
@@ -122,7 +125,8 @@ CHECKS["C12"] = (
     "model_checking",
     "stateless deviation-bounded exploration of every random answer (choice-point explorer over random.*) of the real fuzzer and mutator, on all open/closed trees up to a bound",
     "The five functions of the random module that fuzzer.py and mutator.py call are replaced by a choice-point explorer. For every open "
-    "prefix (ids both fresh and caller-supplied just ahead of the global id counter) of every closed tree of five grammars, both fuzzer "
+    "prefix (ids both fresh and caller-supplied just ahead of the global id counter) of every closed tree - rooted in <start> and in every other "
+    "nonterminal, with both encodings of an empty expansion - of five grammars, both fuzzer "
     "classes and two nonterminal-budget settings, expand_tree is run under every answer sequence with at most 3 (thorough 4) deviations from "
     "a fixed default schedule within the first 16 (24) choice points - completely for inputs with one open leaf; Mutator.mutate likewise "
     "on every closed tree with two mutation-count settings; a long-lived coverage fuzzer is driven through all 125 call sequences of "
@@ -155,7 +159,8 @@ CHECKS["C01"] = (
     "unsat support). solve() is called up to 5 (thorough 8) times and EVERY returned tree is checked: closed, grammar-valid, rooted in "
     "<start>, and satisfying the ORIGINAL constraint under the reference semantics (the solver's own assertion only evaluates the residual "
     "constraint). All random answers are owned by the choice-point explorer: one fixed default schedule for every instance, plus every "
-    "single deviation within the first 12 (30) choice points on the core.",
+    "single deviation within the first 12 (30) choice points on the core. A sixth grammar (header:word=number) carries eleven nested-SMT "
+    "scenarios (an atom over an element and one over a part of it; two-variable atoms that lose a variable by simplification) under four settings and 9 (14) calls.",
     "Reference semantics as in C03. Runs cut by the wall-clock cap, and replays that diverge (Z3 timing), are counted and not judged.",
     "DESIGN.md section 3, C01",
 )
@@ -204,11 +209,11 @@ CHECKS["C17"] = (
     "BFS + ENUM",
     "model_checking",
     "explicit-state breadth-first search over histories of cache computations and serializations on real trees; exhaustive literal alphabet for SMT formula pickling; all universe trees through the CLI JSON reader",
-    "(a) From six seed trees, every history of length <= 3 (thorough 4) over fifteen operations (k-path computations on root and child, "
+    "(d) CLI pipeline: what `isla parse` prints (stdout as printed / -o file, plain / pretty) is written to a file and read back by `isla parse`. (a) From six seed trees, every history of length <= 3 (thorough 4) over fifteen operations (k-path computations on root and child, "
     "structural hash, hash, is_open, str, paths, trie, len, pickle round trip, to_json, from_json(to_json), deepcopy, pickle of a child) is "
     "replayed on a fresh real tree; after every step ALL observers run again on the original and on any decoded tree and are compared with "
-    "the nested-tuple reference. (b) seven SMT atom skeletons x all pairs of 16 string literals (quotes, backslashes incl. trailing, newline, "
-    "tab, NUL, Latin-1, BMP, \\u-lookalike text) with and without substituted trees: the unpickled formula must equal the original and "
+    "the nested-tuple reference. (b) seven SMT atom skeletons x all pairs of 21 string literals (quotes, backslashes incl. trailing, newline, "
+    "tab, NUL, Latin-1, BMP, \\u-lookalike text, runs of blanks, blank lines; one skeleton long enough for Z3's printer to wrap) with and without substituted trees: the unpickled formula must equal the original and "
     "print identically. (c) every tree of three grammar universes and open prefixes through derivation_tree_to_json and the CLI's JSON reader.",
     "States are merged only when the set of operations applied, the serialization count and the per-node cache signature agree.",
     "DESIGN.md section 3, C17",
@@ -231,10 +236,11 @@ CHECKS["C07"] = (
     "ENUM",
     "model_checking",
     "bounded exhaustive enumeration of constraint texts over a syntax alphabet through parse -> unparse -> parse -> unparse, with differential evaluation on all closed trees",
-    "About 600 constraint texts: one core-syntax formula per schema of the typed universe, every sugared form of the C08 generator, free "
+    "About 1900 constraint texts: one core-syntax formula per schema of the typed universe, every sugared form of the C08 generator, free "
     "nonterminals (incl. <start>) in every argument position, XPath expressions, const declarations, bound names that collide with "
     "generated names, one constraint per SMT operator nest and per string literal class (quotes, backslashes, newline, tab, Latin-1, BMP), "
-    "match expressions over a grammar whose terminals need escaping, numeric quantifiers and predicates with string/int arguments. For every "
+    "match expressions over a grammar whose terminals need escaping, numeric quantifiers and predicates with string/int arguments, every pair of arithmetic operators in left-/right-nested, flat and infix "
+    "form, nested Boolean and regular-expression operators, and every assignment of the names {v, v_0, v_1} to the quantifiers of four formula shapes. For every "
     "accepted text: the unparsed text must parse, the re-parsed constraint must equal the first, the second unparse must reproduce the text, "
     "and both constraints must evaluate identically on every closed tree of the grammar's universe.",
     "Texts the first parse rejects are outside the domain; classes rejected completely are listed in the evidence as coverage gaps.",
@@ -245,11 +251,13 @@ CHECKS["C08"] = (
     "ENUM",
     "model_checking",
     "bounded exhaustive enumeration of (sugared text, hand-expanded core formula) pairs x all closed trees; the core side judged by the reference semantics",
-    "Sixty pairs cover every documented sugar rule and combinations: omitted 'in start', omitted variable names, free nonterminals, XPath "
+    "About 110 pairs cover every documented sugar rule and combinations: omitted 'in start', omitted variable names, free nonterminals, XPath "
     "child axis over single / several candidate alternatives in universal and existential context, indices 1..12 on a twelve-child rule, "
     "descendant axis, prefix/infix SMT notation with precedence, negative literals, implies/iff/xor with precedence. The core translation "
-    "is written from islaspec.rst as an own AST; on every closed tree of four grammars evaluate(sugar) must equal the reference semantics "
-    "of the core form, and parse_isla must accept the sugar.",
+    "is written from islaspec.rst as an own AST; on every closed tree of six grammars (two are revisions that keep the nonterminal names and add "
+    "an alternative) evaluate(sugar) must equal the reference semantics of the core form, and parse_isla must accept the sugar. Further families: an "
+    "unnamed quantifier with an XPath next to a free XPath of the same type, explicit names that look like generated ones, and parse histories (all "
+    "texts parsed under one grammar, then the pairs of another judged in the same process, six ordered grammar pairs).",
     "Only contexts the specification decides are paired (e.g. the descendant axis below an existentially bound variable is not).",
     "DESIGN.md section 3, C08",
 )
@@ -272,13 +280,15 @@ CHECKS["C19"] = (
     "ENUM",
     "model_checking",
     "exhaustive enumeration of command x grammar source x constraint source x input source x flag combinations against a contract table, plus solve->check and parse->check pipelines",
-    "About 1500 command lines: check and parse over the full product of 7 grammar sources (BNF file ok/malformed/empty, --grammar, Python "
-    "file with/without a grammar, missing) x 8 constraint sources (file, unsatisfiable, malformed, empty file, -c once, -c twice, file plus "
-    "-c, missing) x 11 input sources (file valid / without trailing newline / syntactically invalid / violating / empty, JSON tree, JSON of "
+    "About 3300 command lines: check and parse over the full product of 7 grammar sources (BNF file ok/malformed/empty, --grammar, Python "
+    "file with/without a grammar, missing) x 10 constraint sources (file, unsatisfiable, malformed, empty file, -c once, -c twice, file plus "
+    "-c, missing) x 12 input sources (file valid / without trailing newline / syntactically invalid / violating / empty, JSON tree, JSON of "
     "an invalid tree, -i string, -i \"\", two inputs, missing); solve, repair and mutate over reduced products. They run in-process through "
     "isla.cli.main with SystemExit caught; twelve representatives also run as real `python -m isla` processes and must agree. Expected exit "
     "codes come from a contract table that uses the reference semantics for the CONJUNCTION of all constraints. Pipelines feed every line, "
-    "-d file and --tree file of `isla solve`, and the JSON of `isla parse`, back to `isla check` for two grammars (one whose words end in a newline).",
+    "-d file and --tree file of `isla solve`, and the JSON of `isla parse`, back to `isla check` for two grammars (one whose words end in a newline). "
+    "Layouts: for check/parse x 2 grammar files x 2 constraint sources x 4 inputs, every order of the positional files with and without a grammar-less "
+    "extension file, and six further input file names containing .py/.bnf/.isla in the middle.",
     "Combinations the contract does not rank accept any applicable code but never a traceback.",
     "DESIGN.md section 3, C19",
 )
